@@ -118,7 +118,9 @@ def check_verify(case):
         # a DER-like but not strictly DER signature reached a signature check: the statement excludes these (OpenSSL leniency)
         return {'nt': False, 'cls': ['out-of-scope:non-strict-der-signature']}
     try:
-        VerifyScript(CScript(ssig), CScript(spk), tx, idx, flags=libx.flagset(flags))
+        fl_ = libx.flagset(flags)
+        fl_ = [fl_, frozenset(fl_), tuple(fl_), list(fl_)][(len(ssig) + len(spk)) % 4]          # any container of flags
+        VerifyScript(CScript(ssig), CScript(spk), tx, idx, flags=fl_)
         lib = True
     except ValidationError:
         lib = False
@@ -324,8 +326,19 @@ def t_hashlen(ctx):
         for op in (0xa6, 0xa7, 0xa8, 0xa9, 0xaa):
             _direct(ctx, {'kind': 'eval', 'script': (S.push_enc(data) + bytes([op])).hex(), 'stack': [], 'flags': []}, agg)
             _direct(ctx, {'kind': 'eval', 'script': bytes([op]).hex(), 'stack': [data.hex()], 'flags': []}, agg)
+        # opcodes whose RESULT is a number derived from a size or a count: every element size through SIZE, and (for sizes up
+        # to 300, also used as a count) every stack depth through DEPTH, compared with the reference's script-number encoding
+        _direct(ctx, {'kind': 'eval', 'script': (S.push_enc(data) + b'\x82').hex(), 'stack': [], 'flags': []}, agg)
+        _direct(ctx, {'kind': 'eval', 'script': '82', 'stack': [data.hex()], 'flags': []}, agg)
+        if L <= 320:
+            _direct(ctx, {'kind': 'eval', 'script': '74', 'stack': ['01'] * L, 'flags': []}, agg)
+            _direct(ctx, {'kind': 'eval', 'script': '51' * min(L, 200) + '74', 'stack': ['02'] * max(L - 200, 0), 'flags': []}, agg)
+    if ctx.shard == 0:
+        for depth in (126, 127, 128, 129, 254, 255, 256, 257, 511, 512, 998, 999):
+            _direct(ctx, {'kind': 'eval', 'script': '74', 'stack': [''] * depth, 'flags': []}, agg)
+            _direct(ctx, {'kind': 'eval', 'script': '7476', 'stack': ['81'] * depth, 'flags': []}, agg)
     ctx.bulk(agg['n'], agg['nt'], agg['cls'], agg['sample'],
-             '5 hash opcodes x every element length 0..320 and {447,448,511,512,519,520}' if ctx.shard == 0 else None)
+             '5 hash opcodes + SIZE x every element length 0..320 and {447,448,511,512,519,520}; DEPTH at every depth 0..320 and around 127/255/511/999' if ctx.shard == 0 else None)
 
 
 # ---- (ii) stack-aware grammar
